@@ -39,7 +39,10 @@ def case(g, tier, ci):
             ops += [{"op": "sq.new", "id": sub}, {"op": "sq.setSR", "id": sub, "v": enc(SR)}]
             if r.random() < 0.3:
                 ops.append({"op": "sq.setName", "id": sub, "name": "inner"})
-            for p2 in range(1, K + 1):
+            inner = list(range(1, K + 1))
+            if r.random() < 0.4:
+                r.shuffle(inner)          # the subsequence's positions filled out of ascending order
+            for p2 in inner:
                 eid = g.fresh("e")
                 n2 = r.randint(4, 24)
                 ops += sg.element(eid, SR, n2, r.sample(chans, len(chans)), raw_p=0.25, kinds=("ramp", "sine"), flags_p=0.3, nseg=(1, 3))
